@@ -135,6 +135,81 @@ pub struct Merged {
     pub run_digests: BTreeMap<u64, u64>,
 }
 
+/// Miri leg (C17): plain std threads and plain f64 sharing one sampler (or using
+/// two different samplers at once) under Miri's own seeded scheduler.  Miri
+/// preempts between basic blocks, so it reaches windows that contain no seam
+/// event of the baton scheduler, and it reports data races.  A failing seed is an
+/// exactly replayable schedule (-Zmiri-seed).  If Miri is not available the leg
+/// is skipped and says so.
+fn miri_leg(thorough: bool, _seed: u64, m: &mut Merged) -> Vec<Value> {
+    if std::env::var("VERIF_NO_MIRI").is_ok() {
+        return vec![json!({"leg": "miri", "status": "disabled by VERIF_NO_MIRI"})];
+    }
+    let dir = format!("{}/sim/build/miri", verif_root());
+    let plan: Vec<(u64, u64)> = if thorough {
+        vec![(0, 48), (1, 48), (2, 96), (3, 48), (4, 48), (5, 96)]
+    } else {
+        vec![(0, 8), (2, 16)]
+    };
+    let mut out = Vec::new();
+    for (case, nseeds) in plan {
+        let flags = format!(
+            "-Zmiri-deterministic-floats -Zmiri-preemption-rate=0.1 -Zmiri-many-seeds=0..{}",
+            nseeds
+        );
+        let r = Command::new("cargo")
+            .args(["+nightly", "miri", "run", "--offline", "--", &case.to_string()])
+            .current_dir(&dir)
+            .env("MIRIFLAGS", &flags)
+            .env("CARGO_NET_OFFLINE", "true")
+            .stdin(Stdio::null())
+            .output();
+        match r {
+            Err(e) => {
+                out.push(json!({"leg": "miri", "status": format!("unavailable: {}", e)}));
+                return out;
+            }
+            Ok(o) => {
+                let err = String::from_utf8_lossy(&o.stderr).to_string();
+                let tried = err.matches("Trying seed").count();
+                if !o.status.success() && tried == 0 && !err.contains("MIRI-LEG MISMATCH") && !err.contains("Undefined Behavior") {
+                    // the tool itself could not run (not installed / cannot build)
+                    let tail: String = err.lines().rev().take(3).collect::<Vec<_>>().join(" | ");
+                    out.push(json!({"leg": "miri", "status": format!("unavailable: {}", tail)}));
+                    return out;
+                }
+                *m.stats.entry("miri_seeds_executed".into()).or_insert(0) += tried as u64;
+                out.push(json!({"leg": "miri", "case": case, "seeds": nseeds, "seeds_started": tried, "ok": o.status.success()}));
+                if !o.status.success() {
+                    let fs = err
+                        .lines()
+                        .find_map(|l| l.find("FAILING SEED:").map(|i| l[i + 13..].trim().to_string()))
+                        .and_then(|x| x.parse::<u64>().ok());
+                    let what = if err.contains("Undefined Behavior") {
+                        err.lines().find(|l| l.contains("Undefined Behavior")).unwrap_or("").to_string()
+                    } else {
+                        err.lines().find(|l| l.contains("MIRI-LEG MISMATCH")).unwrap_or("caller results differ").to_string()
+                    };
+                    let class = if err.contains("Undefined Behavior") { "miri-data-race-or-ub" } else { "concurrent-callers-differ-under-miri-schedule" };
+                    *m.found_per_class.entry(class.into()).or_insert(0) += 1;
+                    m.found_total += 1;
+                    m.found.push((
+                        u64::MAX - case,
+                        fs.unwrap_or(0),
+                        Found {
+                            class: class.into(),
+                            key: format!("C17:miri:case={}", case),
+                            detail: json!({"case": case, "failing_miri_seed": fs, "what": what.chars().take(300).collect::<String>()}),
+                            case: json!({"kind": "miri", "case": case, "miri_seed": fs, "nseeds": nseeds}),
+                        },
+                    ));
+                }
+            }
+        }
+    }
+    out
+}
+
 /// Cross-process leg: the same runs are executed again by fresh processes of the
 /// `os` build (ahash with real per-process OS keys, own ASLR layout, momtrop
 /// without the `log` feature so debug output takes the println! path), once
@@ -284,7 +359,10 @@ pub fn check(p: &dyn Property, thorough: bool, meta: Meta) -> i32 {
     );
     let outs = spawn_workers(&exe, p.id(), thorough, seed, nw, total, &[], "main");
     let mut m = merge(outs);
-    let legs = cross_process_leg(p, thorough, seed, total, &mut m);
+    let mut legs = cross_process_leg(p, thorough, seed, total, &mut m);
+    if p.id() == "C17" {
+        legs.extend(miri_leg(thorough, seed, &mut m));
+    }
     if let Ok(path) = std::env::var("VERIF_DUMP_FOUND") {
         let _ = write_json(&path, &m.found);
     }
@@ -325,7 +403,7 @@ pub fn check(p: &dyn Property, thorough: bool, meta: Meta) -> i32 {
         let (idx, rseed, first) = unknown[0];
         let os_variant = first.case.get("variant").map(|v| v == "os").unwrap_or(false);
         let vexe = if os_variant { std::env::var("MOMSIM_OS_EXE").unwrap_or(exe.clone()) } else { exe.clone() };
-        let min = if os_variant { first.clone() } else { p.minimise(first) };
+        let min = if os_variant || first.case["kind"] == "miri" { first.clone() } else { p.minimise(first) };
         if let Some(k) = known.open.iter().find(|k| k.property == p.id() && k.key == min.key) {
             // minimisation landed on a known case; the unminimised one is still new
             let _ = k;
@@ -342,13 +420,15 @@ pub fn check(p: &dyn Property, thorough: bool, meta: Meta) -> i32 {
             "violation": min.detail,
             "case": min.case,
             "variant": if os_variant { "os" } else { "sim" },
-            "replay": if min.case["kind"] == "xproc" {
+            "replay": if min.case["kind"] == "miri" {
+                "exact: cargo +nightly miri run with -Zmiri-seed=<miri_seed> re-executes the same schedule"
+            } else if min.case["kind"] == "xproc" {
                 "statistical: re-runs the run in 6 fresh processes of the os build (real OS hash keys, own address space) and compares result digests; reproduces with overwhelming probability, not exactly"
             } else { "exact: pure function of this file and the code" },
         });
         write_json(&path, &file).expect("write replay");
         let mut ok = verify_replay(&vexe, &path);
-        if !ok && min.case["kind"] != "xproc" {
+        if !ok && min.case["kind"] != "xproc" && min.case["kind"] != "miri" {
             // the failure needs the history of its worker process: replay the
             // worker's whole run sequence up to the failing run
             let (nw, total) = if os_variant {
@@ -475,6 +555,40 @@ pub fn replay(props: &[&dyn Property], path: &str) -> i32 {
         }
     };
     let case = &v["case"];
+    if case["kind"] == "miri" {
+        let dir = format!("{}/sim/build/miri", verif_root());
+        let flags = match case["miri_seed"].as_u64() {
+            Some(sd) => format!("-Zmiri-deterministic-floats -Zmiri-preemption-rate=0.1 -Zmiri-seed={}", sd),
+            None => format!(
+                "-Zmiri-deterministic-floats -Zmiri-preemption-rate=0.1 -Zmiri-many-seeds=0..{}",
+                case["nseeds"].as_u64().unwrap_or(16)
+            ),
+        };
+        let o = Command::new("cargo")
+            .args(["+nightly", "miri", "run", "--offline", "--", &case["case"].as_u64().unwrap_or(0).to_string()])
+            .current_dir(&dir)
+            .env("MIRIFLAGS", &flags)
+            .stdin(Stdio::null())
+            .output();
+        return match o {
+            Ok(o) if !o.status.success() => {
+                crate::say!("VIOLATION property={} replay={} class={}", pid, path, class);
+                let err = String::from_utf8_lossy(&o.stderr).to_string();
+                for l in err.lines().filter(|l| l.contains("MIRI-LEG") || l.contains("Undefined Behavior")).take(4) {
+                    crate::say!("{}", l);
+                }
+                1
+            }
+            Ok(_) => {
+                crate::say!("replay: class {} did NOT reproduce", class);
+                0
+            }
+            Err(e) => {
+                eprintln!("HARNESS: cannot run miri: {}", e);
+                2
+            }
+        };
+    }
     if case["kind"] == "xproc" {
         let exe = std::env::current_exe().unwrap();
         let seed = v["verif_seed"].as_u64().unwrap();
